@@ -300,6 +300,26 @@ def templates():
                 T.append([L, EFF, fin(("bin", op, ("call", V("e"), [I(other)]), I(c)))])
                 T.append([L, EFF, ("set", "k", I(c)), ("fndecl", "g", [("p", INT)], ANY, [("return", ("bin", op, V("k"), ("call", V("e"), [V("p")])))]),
                           fin(("call", V("g"), [I(other)]))])
+    # chains `x op c1 op c2` with a non-constant first operand and two constants: a folder that regroups the constants
+    # (`x + (c1 + c2)`) changes float results (rounding), wrapped-int overflow points and which operation fails
+    FL = lambda x: ("f", x)
+    fchains = [(0.1, 0.2, 0.3), (1e16, 1.0, 1.0), (1e308, 1e308, -1e308), (1.0, 1e-16, 1e-16), (-0.0, 0.0, -0.0), (3.0, 1e300, 1e300)]
+    for op in ("add", "sub", "mul", "div"):
+        for a, c1, c2 in fchains:
+            chain = lambda x: ("bin", op, ("bin", op, x, FL(c1)), FL(c2))
+            rchain = lambda x: ("bin", op, FL(c1), ("bin", op, FL(c2), x))
+            for mk in (chain, rchain):
+                T.append([L, ("fndecl", "g", [("p", FLOAT)], FLOAT, [("return", mk(V("p")))]), fin(("call", V("g"), [FL(a)]))])
+                T.append([L, ("set", "k1", FL(c1)), ("fndecl", "idf", [("v", FLOAT)], FLOAT, [("return", V("v"))]),
+                          fin(mk(("call", V("idf"), [FL(a)])))])
+    ichains = [(2**63 - 1, 1, -1), (-2**63, -1, 1), (7, 2**62, 2**62), (5, 0, 3), (2, 3, 4)]
+    for op in ("add", "sub", "mul", "div", "mod", "shl", "shr", "pow", "band", "bor", "bxor"):
+        for a, c1, c2 in ichains:
+            T.append([L, ("fndecl", "g", [("p", INT)], INT, [("return", ("bin", op, ("bin", op, V("p"), I(c1)), I(c2)))]), fin(("call", V("g"), [I(a)]))])
+    for a, c1, c2 in (("x", "a", "b"), ("", "", "z")):
+        T.append([L, ("fndecl", "g", [("p", STR)], STR, [("return", ("bin", "add", ("bin", "add", V("p"), ("s", c1)), ("s", c2)))]), fin(("call", V("g"), [("s", a)]))])
+    T.append([L, ("fndecl", "g", [("p", arr(INT))], arr(ANY), [("return", ("bin", "add", ("bin", "add", V("p"), ("array", [I(1)])), ("array", [("s", "z")])))]),
+              fin(("call", V("g"), [("array", [I(0)])]))])
     T += dead_branch_templates()
     # unary operators on constants
     for v in (0, 5, -2**63):
